@@ -67,7 +67,7 @@ def _variant_job(args):
     from . import corpus
     d = None
     try:
-        if kind == "seeded":
+        if kind in ("seeded", "refactoring"):
             d = make_copy(repo_root, touched=BIG, link_big=False)
             patch = Path(spec["patch"])
             p = subprocess.run(["git", "apply", "--unsafe-paths", "-p1", "--directory", d, str(patch)], cwd=d, stdout=subprocess.PIPE, stderr=subprocess.STDOUT, text=True)
@@ -95,7 +95,7 @@ def _variant_job(args):
         except AnalysisError as e:
             keys, counts, err = [], {}, str(e)
         new = [k for k in keys if tuple(k) not in {tuple(b) for b in base_keys}]
-        if kind == "neutral":
+        if kind in ("neutral", "refactoring"):
             ok = not new and err is None
             return {"name": name, "kind": kind, "status": "ok" if ok else "FAILED", "new_findings": new[:4], "error": err}
         fired = sorted({k[0] for k in new})
@@ -146,6 +146,13 @@ def run(pid, repo_root, seed, base_chk):
             det = meta.get("detected_by", {})
             if pid in det:
                 jobs.append((pid, repo_root, "seeded", s.name, {"patch": str(s / "patch.diff"), "expect": det[pid]}, base_keys))
+    # the stored behaviour-preserving refactorings that were written against this property: the check must stay silent on them
+    nd = VERIF / "neutral"
+    if nd.is_dir():
+        for s in sorted(nd.iterdir()):
+            mf = s / "meta.json"
+            if mf.is_file() and json.loads(mf.read_text()).get("property") == pid and (s / "patch.diff").is_file():
+                jobs.append((pid, repo_root, "refactoring", s.name, {"patch": str(s / "patch.diff")}, base_keys))
     random.Random(seed).shuffle(jobs)
     workers = min(16, max(1, len(jobs)))
     results = []
@@ -158,10 +165,11 @@ def run(pid, repo_root, seed, base_chk):
     out["mutants_caught"] = sum(1 for r in results if r["kind"] == "mutant" and r["status"] == "ok")
     out["neutral_silent"] = sum(1 for r in results if r["kind"] == "neutral" and r["status"] == "ok")
     out["seeded_caught"] = sum(1 for r in results if r["kind"] == "seeded" and r["status"] == "ok")
+    out["refactorings_silent"] = sum(1 for r in results if r["kind"] == "refactoring" and r["status"] == "ok")
     out["skipped"] = [r["name"] for r in results if r["status"] == "skipped"]
     out["results"] = results
     print(f"[{pid}] self-validation: normalised copy identical; {out['mutants_caught']} mutants caught, {out['neutral_silent']} neutral variants silent, "
-          f"{out['seeded_caught']} seeded changes caught, {len(out['skipped'])} skipped, {len(failed)} failed")
+          f"{out['seeded_caught']} seeded changes caught, {out['refactorings_silent']} stored refactorings silent, {len(out['skipped'])} skipped, {len(failed)} failed")
     if failed:
         raise AnalysisError("self-validation failed: " + "; ".join(f"{r['kind']} {r['name']}: {r.get('why') or r.get('new_findings') or ('expected ' + str(r.get('expected')) + ' fired ' + str(r.get('fired')))}" for r in failed[:5]))
     n_real = len(results) - len(out["skipped"])
